@@ -1,5 +1,6 @@
 // Package convtab is the table of all 169 instantiations of the nine
-// sample-format conversions, type-erased so that oracles can be written once.
+// sample-format conversions over the built-in element types, plus 34 with named
+// element types, type-erased so that oracles can be written once.
 package convtab
 
 import (
@@ -39,7 +40,7 @@ type Entry struct {
 func (e *Entry) Key() string    { return e.S.Name + "/" + e.D.Name }
 func (e *Entry) String() string { return e.Fn + "[" + e.S.Name + "," + e.D.Name + "]" }
 
-// Entries lists all 169 instantiations in a fixed order.
+// Entries lists the 169 built-in instantiations in a fixed order, then the 34 named ones.
 var Entries []*Entry
 var byKey = map[string]*Entry{}
 
@@ -93,8 +94,30 @@ func codeToAmp[T signal.SignalTypes](signed bool, half uint64, x T) int64 {
 	return int64(uint64(x) - half)
 }
 
+// primers: element type name -> func(*signal.Buffer[T]) that makes the buffer the
+// whole destination of a conversion (from an all-zero int8 source), so that the
+// buffer's header has the history "produced by a conversion".
+var primers = map[string]any{}
+
+func zeroLike[T signal.SignalTypes](b *signal.Buffer[T]) *signal.Buffer[int8] {
+	return signal.Alloc[int8](signal.Allocator{Channels: b.Channels(), Length: b.Length(), Capacity: b.Length()})
+}
+
+func primeFloat[T constraints.Float](name string) {
+	primers[name] = func(b *signal.Buffer[T]) { signal.SignedAsFloat(zeroLike(b), b) }
+}
+
+func primeSigned[T constraints.Signed](name string) {
+	primers[name] = func(b *signal.Buffer[T]) { signal.SignedAsSigned(zeroLike(b), b) }
+}
+
+func primeUnsigned[T constraints.Unsigned](name string) {
+	primers[name] = func(b *signal.Buffer[T]) { signal.SignedAsUnsigned(zeroLike(b), b) }
+}
+
 func mk[S, D signal.SignalTypes](fn, s, d string, conv func(*signal.Buffer[S], *signal.Buffer[D]) int) {
 	e := &Entry{Fn: fn, S: kit.Info(s), D: kit.Info(d)}
+	prime, _ := primers[s].(func(*signal.Buffer[S]))
 	e.Convert = func(src, dst kit.AnyBuf) int {
 		return conv(src.Raw().(*signal.Buffer[S]), dst.Raw().(*signal.Buffer[D]))
 	}
@@ -158,6 +181,13 @@ func mk[S, D signal.SignalTypes](fn, s, d string, conv func(*signal.Buffer[S], *
 					csrc = base.Slice(0, fr)
 				case 2:
 					src = base.Slice(0, fr)
+				case 5:
+					// the source was the whole destination of a conversion before; the converted
+					// header is a window cut then, the samples are written through the parent afterwards
+					if prime != nil {
+						prime(base)
+					}
+					csrc = base.Slice(0, fr)
 				}
 			}
 			switch sk {
@@ -244,6 +274,28 @@ func unsignedRow[S constraints.Unsigned](s string) {
 }
 
 func init() {
+	primeFloat[float32]("float32")
+	primeFloat[float64]("float64")
+	primeFloat[kit.NFloat32]("NFloat32")
+	primeFloat[kit.NFloat64]("NFloat64")
+	primeSigned[int]("int")
+	primeSigned[int8]("int8")
+	primeSigned[int16]("int16")
+	primeSigned[int32]("int32")
+	primeSigned[int64]("int64")
+	primeSigned[kit.NInt8]("NInt8")
+	primeSigned[kit.NInt16]("NInt16")
+	primeSigned[kit.NInt32]("NInt32")
+	primeSigned[kit.NInt64]("NInt64")
+	primeUnsigned[uint]("uint")
+	primeUnsigned[uint8]("uint8")
+	primeUnsigned[uint16]("uint16")
+	primeUnsigned[uint32]("uint32")
+	primeUnsigned[uint64]("uint64")
+	primeUnsigned[uintptr]("uintptr")
+	primeUnsigned[kit.NUint8]("NUint8")
+	primeUnsigned[kit.NUint16]("NUint16")
+	primeUnsigned[kit.NUint32]("NUint32")
 	floatRow[float32]("float32")
 	floatRow[float64]("float64")
 	signedRow[int]("int")
@@ -257,4 +309,46 @@ func init() {
 	unsignedRow[uint32]("uint32")
 	unsignedRow[uint64]("uint64")
 	unsignedRow[uintptr]("uintptr")
+	namedRows()
+}
+
+// namedRows adds instantiations with named element types (kit.NamedTypes) on the
+// source side, the destination side or both: every one of the nine functions
+// must treat a named type exactly like its underlying type.
+func namedRows() {
+	mk[kit.NFloat32, float64]("FloatAsFloat", "NFloat32", "float64", signal.FloatAsFloat[kit.NFloat32, float64])
+	mk[float64, kit.NFloat32]("FloatAsFloat", "float64", "NFloat32", signal.FloatAsFloat[float64, kit.NFloat32])
+	mk[kit.NFloat64, int16]("FloatAsSigned", "NFloat64", "int16", signal.FloatAsSigned[kit.NFloat64, int16])
+	mk[float32, kit.NInt16]("FloatAsSigned", "float32", "NInt16", signal.FloatAsSigned[float32, kit.NInt16])
+	mk[kit.NFloat32, uint8]("FloatAsUnsigned", "NFloat32", "uint8", signal.FloatAsUnsigned[kit.NFloat32, uint8])
+	mk[float64, kit.NUint16]("FloatAsUnsigned", "float64", "NUint16", signal.FloatAsUnsigned[float64, kit.NUint16])
+	mk[kit.NInt16, float64]("SignedAsFloat", "NInt16", "float64", signal.SignedAsFloat[kit.NInt16, float64])
+	mk[int32, kit.NFloat32]("SignedAsFloat", "int32", "NFloat32", signal.SignedAsFloat[int32, kit.NFloat32])
+	mk[kit.NUint8, float32]("UnsignedAsFloat", "NUint8", "float32", signal.UnsignedAsFloat[kit.NUint8, float32])
+	mk[uint16, kit.NFloat64]("UnsignedAsFloat", "uint16", "NFloat64", signal.UnsignedAsFloat[uint16, kit.NFloat64])
+	mk[kit.NInt16, int16]("SignedAsSigned", "NInt16", "int16", signal.SignedAsSigned[kit.NInt16, int16])
+	mk[int16, kit.NInt8]("SignedAsSigned", "int16", "NInt8", signal.SignedAsSigned[int16, kit.NInt8])
+	mk[kit.NInt8, kit.NInt32]("SignedAsSigned", "NInt8", "NInt32", signal.SignedAsSigned[kit.NInt8, kit.NInt32])
+	mk[int64, kit.NInt16]("SignedAsSigned", "int64", "NInt16", signal.SignedAsSigned[int64, kit.NInt16])
+	mk[kit.NInt16, uint16]("SignedAsUnsigned", "NInt16", "uint16", signal.SignedAsUnsigned[kit.NInt16, uint16])
+	mk[int8, kit.NUint16]("SignedAsUnsigned", "int8", "NUint16", signal.SignedAsUnsigned[int8, kit.NUint16])
+	mk[kit.NInt32, kit.NUint8]("SignedAsUnsigned", "NInt32", "NUint8", signal.SignedAsUnsigned[kit.NInt32, kit.NUint8])
+	mk[kit.NUint16, int16]("UnsignedAsSigned", "NUint16", "int16", signal.UnsignedAsSigned[kit.NUint16, int16])
+	mk[uint8, kit.NInt16]("UnsignedAsSigned", "uint8", "NInt16", signal.UnsignedAsSigned[uint8, kit.NInt16])
+	mk[kit.NUint32, kit.NInt8]("UnsignedAsSigned", "NUint32", "NInt8", signal.UnsignedAsSigned[kit.NUint32, kit.NInt8])
+	mk[kit.NUint8, uint16]("UnsignedAsUnsigned", "NUint8", "uint16", signal.UnsignedAsUnsigned[kit.NUint8, uint16])
+	mk[uint16, kit.NUint8]("UnsignedAsUnsigned", "uint16", "NUint8", signal.UnsignedAsUnsigned[uint16, kit.NUint8])
+	mk[kit.NUint16, kit.NUint16]("UnsignedAsUnsigned", "NUint16", "NUint16", signal.UnsignedAsUnsigned[kit.NUint16, kit.NUint16])
+	mk[kit.NInt64, kit.NFloat64]("SignedAsFloat", "NInt64", "NFloat64", signal.SignedAsFloat[kit.NInt64, kit.NFloat64])
+	// the way back for the round trips of C07 and C09
+	mk[float64, kit.NInt16]("FloatAsSigned", "float64", "NInt16", signal.FloatAsSigned[float64, kit.NInt16])
+	mk[kit.NFloat32, int32]("FloatAsSigned", "NFloat32", "int32", signal.FloatAsSigned[kit.NFloat32, int32])
+	mk[float32, kit.NUint8]("FloatAsUnsigned", "float32", "NUint8", signal.FloatAsUnsigned[float32, kit.NUint8])
+	mk[kit.NFloat64, uint16]("FloatAsUnsigned", "NFloat64", "uint16", signal.FloatAsUnsigned[kit.NFloat64, uint16])
+	mk[kit.NFloat64, kit.NInt64]("FloatAsSigned", "NFloat64", "NInt64", signal.FloatAsSigned[kit.NFloat64, kit.NInt64])
+	mk[kit.NInt32, int8]("SignedAsSigned", "NInt32", "int8", signal.SignedAsSigned[kit.NInt32, int8])
+	mk[kit.NUint16, int8]("UnsignedAsSigned", "NUint16", "int8", signal.UnsignedAsSigned[kit.NUint16, int8])
+	mk[kit.NInt16, uint8]("SignedAsUnsigned", "NInt16", "uint8", signal.SignedAsUnsigned[kit.NInt16, uint8])
+	mk[kit.NFloat32, int16]("FloatAsSigned", "NFloat32", "int16", signal.FloatAsSigned[kit.NFloat32, int16])
+	mk[int16, kit.NFloat32]("SignedAsFloat", "int16", "NFloat32", signal.SignedAsFloat[int16, kit.NFloat32])
 }
